@@ -75,6 +75,7 @@ fn enumeral(input: Input<'_>) -> ParserResult<'_, EnumeralInput<'_>> {
     .parse(input)
 }
 
+#[cfg(test)]
 fn enumerals<'a>(
     start_index: usize,
 ) -> impl Parser<Input<'a>, Output = Vec<Enumeral>, Error = ErrorTree<'a>> {
@@ -92,15 +93,118 @@ fn enumerals<'a>(
     )
 }
 
+/// Parses a list of enumeration items. Each item is returned together with its number
+/// as written in the source (`None` for items that consist of an identifier only).
+fn enumeration_items<'a>(
+) -> impl Parser<Input<'a>, Output = Vec<(Enumeral, Option<i128>)>, Error = ErrorTree<'a>> {
+    fold_many0(
+        enumeral,
+        Vec::<(Enumeral, Option<i128>)>::new,
+        |mut acc, (name, index, _, comments)| {
+            acc.push((
+                Enumeral {
+                    name: name.into(),
+                    description: comments.map(|c| c.into()),
+                    index: index.unwrap_or_default(),
+                },
+                index,
+            ));
+            acc
+        },
+    )
+}
+
+/// Returns whether `number` occurs in `used`.
+fn is_used(used: &[i128], number: i128) -> bool {
+    for u in used {
+        if *u == number {
+            return true;
+        }
+    }
+    false
+}
+
+/// Returns the smallest value that is not smaller than `from` and does not occur in `used`.
+fn next_unused(from: i128, used: &[i128]) -> i128 {
+    let mut candidate = from;
+    while candidate < i128::MAX && is_used(used, candidate) {
+        candidate += 1;
+    }
+    candidate
+}
+
+/// Assigns the enumeration values of an ENUMERATED type as specified in
+/// Rec. ITU-T X.680 (02/2021) §20. `root` and `additions` hold the numbers as
+/// written in the source, `None` standing for an identifier-only item.
+/// - §20.3: identifier-only items of the root are assigned successive distinct
+///   non-negative integers starting with 0, skipping the numbers that are used
+///   explicitly in the root.
+/// - §20.6: an identifier-only item after the extension marker is assigned the smallest
+///   value that is not used in the root and is greater than all preceding additions.
+pub(crate) fn assign_enumeral_numbers(
+    root: &[Option<i128>],
+    additions: &[Option<i128>],
+) -> (Vec<i128>, Vec<i128>) {
+    let mut explicit = Vec::new();
+    for item in root {
+        if let Some(number) = item {
+            explicit.push(*number);
+        }
+    }
+    let mut root_numbers = Vec::new();
+    let mut next = 0;
+    for item in root {
+        match item {
+            Some(number) => root_numbers.push(*number),
+            None => {
+                next = next_unused(next, &explicit);
+                root_numbers.push(next);
+                if next < i128::MAX {
+                    next += 1;
+                }
+            }
+        }
+    }
+    let mut addition_numbers = Vec::new();
+    let mut floor = 0;
+    for item in additions {
+        let number = match item {
+            Some(number) => *number,
+            None => next_unused(floor, &root_numbers),
+        };
+        addition_numbers.push(number);
+        if number >= floor && number < i128::MAX {
+            floor = number + 1;
+        }
+    }
+    (root_numbers, addition_numbers)
+}
+
 fn enumerated_body(input: Input<'_>) -> ParserResult<'_, EnumeralBody> {
     in_braces(|input| {
-        let (input, root_enumerals) = enumerals(0).parse(input)?;
+        let (input, root_items) = enumeration_items().parse(input)?;
         let (input, ext_marker) = opt(terminated(
             extension_marker,
             skip_ws_and_comments(opt(char(COMMA))),
         ))
         .parse(input)?;
-        let (input, ext_enumerals) = opt(enumerals(root_enumerals.len())).parse(input)?;
+        let (input, ext_items) = opt(enumeration_items()).parse(input)?;
+        let (root_written, mut root_enumerals): (Vec<_>, Vec<_>) =
+            root_items.into_iter().map(|(e, n)| (n, e)).unzip();
+        let (ext_written, mut ext_enumerals): (Vec<_>, Option<Vec<_>>) = match ext_items {
+            Some(items) => {
+                let (written, enumerals) = items.into_iter().map(|(e, n)| (n, e)).unzip();
+                (written, Some(enumerals))
+            }
+            None => (Vec::new(), None),
+        };
+        let (root_numbers, ext_numbers) = assign_enumeral_numbers(&root_written, &ext_written);
+        for (enumeral, number) in root_enumerals.iter_mut().zip(root_numbers) {
+            enumeral.index = number;
+        }
+        for (enumeral, number) in ext_enumerals.iter_mut().flatten().zip(ext_numbers) {
+            enumeral.index = number;
+        }
         Ok((input, (root_enumerals, ext_marker, ext_enumerals)))
     })
     .parse(input)
